@@ -66,4 +66,4 @@ func main() {
 }
 
 var extraCmds = map[string]func(){}
-var order = []string{"consts", "fiat", "slp", "addchain", "asmdata", "listing", "gofacts", "ctir", "ctirsm4", "ctirfn", "gosm4", "gosm3", "arm64glue"}
+var order = []string{"consts", "fiat", "slp", "addchain", "asmdata", "listing", "gofacts", "ctir", "ctirsm4", "ctirfn", "ctirproto", "gosm4", "gosm3", "arm64glue"}
